@@ -7,7 +7,7 @@ TECHNIQUE = 'runtime monitoring: reference collapse oracle + three-implementatio
 RULE = ('score tensors N(1-8) x C(2-40) x T(1-60) built from a chosen arg-max path (classes: random, leading/trailing blanks, all blank, '
         'repeats split by blank, first frame non-blank, last class next to blank, identical rows, different rows, single frame) with arg-max '
         'margin >= 1e-2; plus batches pushed through the real PytorchEngineLineOCR.run_ocr with a stub net. '
-        'non-trivial = some line has a non-empty transcription with a merged repeat or a dropped blank; distinct = hash of the arg-max paths Alphabets of 256-1000 classes; near ties (one ulp apart, no conversion between matrix and decoders) and raw scores around -1000 / +800; the previous run_ocr result re-checked after the next call.')
+        'non-trivial = some line has a non-empty transcription with a merged repeat or a dropped blank; distinct = hash of the arg-max paths Alphabets of 256-1000 classes; near ties (one ulp apart, no conversion between matrix and decoders) and raw scores around -1000 / +800; the previous run_ocr result re-checked after the next call. Alphabets up to 70000 classes; an engine whose network emits nearly equal class scores.')
 ASSUMPTIONS = ['for exact arg-max ties (class exact_ties: quantised outputs) only the agreement of the engine decoder and the stand-alone decoder is required (the statement gives no tie rule for the reference collapse); frames of engine output with margin < 1e-4 are skipped as ambiguous elsewhere',
                'blank is the last class; 3-D tensors only (the 2-D branch of the engine decoder is not reachable from the repository)']
 N = {'quick': 5000, 'thorough': 300000}
@@ -68,7 +68,9 @@ def gen(rng, i, ctx):
         return {'cls': cls, 'data': data}
     N_, C, T = int(rng.integers(1, 9)), int(rng.integers(2, 41)), int(rng.integers(1, 61))
     if cls == 'large_alphabet':
-        C = int(rng.choice([256, 257, 258, 300, 512, 1000]))          # real alphabets (CJK, mixed scripts) have hundreds to thousands of classes
+        C = int(rng.choice([256, 257, 258, 300, 512, 1000, 33000, 70000]))          # real alphabets (CJK, mixed scripts) have hundreds to tens of thousands of classes
+        if C > 1000:
+            N_, T = int(rng.integers(1, 3)), int(rng.integers(1, 9))
     if cls == 'near_ties':
         # the two best symbols of a frame differ by one or a few units in the last place; or all scores lie where exp() under/overflows
         C = int(rng.integers(3, 8))
@@ -231,7 +233,7 @@ def check(case, mon, ctx):
             mon.mark_nontrivial({'engine_paths': am})
         return
     C = case['C']
-    chars = [chr(0x61 + k) for k in range(C - 1)] if C <= 41 else [chr(0x4e00 + k) for k in range(C - 1)]
+    chars = [chr(0x61 + k) for k in range(C - 1)] if C <= 41 else [chr(0x3400 + k + (0x800 if 0x3400 + k >= 0xD800 else 0)) for k in range(C - 1)]
     if C > 256:
         mon.count('alphabets_over_256_classes')
     if case['cls'] == 'near_ties':
